@@ -17,10 +17,19 @@ echo "== demo on modified tree"
 ( cd "$WT" && PYTHONPATH="$WT" timeout 120 /venv/bin/python "$DEMO" >/tmp/confirm_demo1_$ID.log 2>&1 ); RC1=$?
 echo "rc=$RC1"
 echo "== suite on modified tree"
-( cd "$WT" && PYTHONPATH="$WT" /venv/bin/python -m pytest -q -p no:cacheprovider --timeout=900 2>&1 | tail -3 ) > /tmp/confirm_suite_$ID.log
+( cd "$WT" && PYTHONPATH="$WT" /venv/bin/python -m pytest -q -p no:cacheprovider --timeout=900 2>&1 | grep -E '^FAILED|passed|failed' ) > /tmp/confirm_suite_$ID.log
 SUITE=$(tail -1 /tmp/confirm_suite_$ID.log)
 echo "$SUITE"
 FAILED=$(grep -E "^FAILED" /tmp/confirm_suite_$ID.log | grep -v crypto_test | grep -v test_group_4 | grep -v test_group_14 | wc -l)
+if [ $FAILED -ne 0 ]; then
+  # the comprehensive_hsm_test groups follow time.sleep(0.01) and fail under load: a failure counts only if it persists when the test is re-run alone
+  IDS=$(grep -E "^FAILED" /tmp/confirm_suite_$ID.log | grep -v crypto_test | awk '{print $2}')
+  for try in 1 2 3; do
+    if ( cd "$WT" && PYTHONPATH="$WT" /venv/bin/python -m pytest -q -p no:cacheprovider --timeout=900 $IDS >/tmp/confirm_rerun_$ID.log 2>&1 ); then
+      echo "(re-run alone, attempt $try: $IDS passed - load-dependent failure of the full run, not counted)"; FAILED=0; SUITE="$SUITE [+ load-dependent: $(echo $IDS | tr '\n' ' ') passed when re-run alone]"; break
+    fi
+  done
+fi
 git -C /repo worktree remove --force "$WT"
 if [ $RC0 -eq 0 ] && [ $RC1 -ne 0 ] && [ $FAILED -eq 0 ]; then
   mkdir -p /verif/seeded/$ID
